@@ -23,6 +23,7 @@ func init() {
 		{Name: "writer-datasize-offset", File: "compress/writer.go", Old: "binary.LittleEndian.PutUint32(w.Data[hDataSize:], uint32(len(buf)))", New: "binary.LittleEndian.PutUint32(w.Data[hDataSize-1:], uint32(len(buf)))", Rule: "C02.frame", Construct: "layout"},
 	}
 	mutants["C03"] = []Mutant{
+		{Name: "chain-preallocated-with-length", File: "client.go", Old: "\tfor _, next := range list[1:] {", New: "\tif len(list) > 1 {\n\t\te.Next = make([]Exception, len(list)-1)\n\t}\n\tfor _, next := range list[1:] {", Rule: "C03.exception", Construct: "chain-root"},
 		{Name: "handler-before-end-check", File: "query.go", Old: "\tif block.End() {\n\t\treturn nil\n\t}\n", New: "", Rule: "C03.handler", Construct: "decodeBlock"},
 		{Name: "progress-error-ignored", File: "query.go", Old: "\t\t\tif err := f(ctx, p); err != nil {\n\t\t\t\treturn errors.Wrap(err, \"progress\")\n\t\t\t}", New: "\t\t\t_ = f(ctx, p)", Rule: "C03.callbacks", Construct: "OnProgress"},
 		{Name: "totals-not-dispatched", File: "query.go", Old: "case proto.ServerCodeData, proto.ServerCodeTotals:", New: "case proto.ServerCodeData:", Rule: "C03.dispatch", Construct: "ServerCodeTotals"},
@@ -38,6 +39,7 @@ func init() {
 		{Name: "watch-ignores-failure-flag", File: "query.go", Old: "if (ctx.Err() != nil || receiveFailed.Load()) && !gotException.Load() {", New: "if ctx.Err() != nil && !gotException.Load() {", Rule: "C04.watch-order", Construct: ""},
 	}
 	mutants["C05"] = []Mutant{
+		{Name: "dst-sized-by-source", File: "compress/writer.go", Old: "\tmaxSize := lz4.CompressBlockBound(len(buf))\n", New: "\tmaxSize := len(buf)\n\tif w.lz4 != nil {\n\t\tmaxSize = lz4.CompressBlockBound(len(buf))\n\t}\n", Rule: "C05.dst", Construct: ""},
 		{Name: "no-datasize-limit", File: "compress/reader.go", Old: "if dataSize < 0 || dataSize > maxDataSize {", New: "if dataSize < 0 {", Rule: "C05.bounds", Construct: ""},
 		{Name: "hash-skips-header", File: "compress/reader.go", Old: "h := city.CH128(r.raw[hMethod:])", New: "h := city.CH128(r.raw[headerSize:])", Rule: "C05.verify", Construct: "region"},
 		{Name: "reference-is-computed", File: "compress/reader.go", Old: "Reference: hGot,", New: "Reference: h,", Rule: "C05.err", Construct: "literal"},
@@ -62,6 +64,8 @@ func init() {
 		{Name: "two-reads-in-packet", File: "client.go", Old: "\tn, err := c.reader.UVarInt()\n\tif err != nil {\n\t\treturn 0, errors.Wrap(err, \"uvarint\")\n\t}\n", New: "\tn, err := c.reader.UVarInt()\n\tif err != nil {\n\t\treturn 0, errors.Wrap(err, \"uvarint\")\n\t}\n\tif n > 1000 {\n\t\tif n, err = c.reader.UVarInt(); err != nil {\n\t\t\treturn 0, err\n\t\t}\n\t}\n", Rule: "C08.retry", Construct: "one-read"},
 	}
 	mutants["C09"] = []Mutant{
+		{Name: "blank-first-round-ends-stream", File: "query.go", Old: "\t\t\tif q.Input[0].Data.Rows() == 0 {\n\t\t\t\tgoto End // initial input was blank\n\t\t\t}\n\t\t\t// Initial input is also the last one, writing it as single block.\n\t\t\tf = nil\n\t\t}\n", New: "\t\t\tif q.Input[0].Data.Rows() == 0 {\n\t\t\t\tgoto End // initial input was blank\n\t\t\t}\n\t\t\t// Initial input is also the last one, writing it as single block.\n\t\t\tf = nil\n\t\t}\n\t\tif q.Input[0].Data.Rows() == 0 {\n\t\t\tgoto End\n\t\t}\n", Rule: "C09.more", Construct: ""},
+		{Name: "enum-prepare-accumulates", File: "proto/col_enum.go", Old: "\te.raw8 = e.raw8[:0]\n\te.raw16 = e.raw16[:0]\n", New: "", Rule: "C09.rebuild", Construct: "ColEnum"},
 		{Name: "flush-after-callback", File: "query.go", Old: "\t\t// Flushing the buffer to prevent high memory consumption.\n\t\tif err := c.flush(ctx); err != nil {\n\t\t\treturn errors.Wrap(err, \"flush\")\n\t\t}\n\t\tif err := f(ctx); err != nil {", New: "\t\terr := f(ctx)\n\t\tif ferr := c.flush(ctx); ferr != nil {\n\t\t\treturn errors.Wrap(ferr, \"flush\")\n\t\t}\n\t\tif err != nil {", Rule: "C09.flush", Construct: "encodeBlock"},
 		{Name: "second-terminator", File: "query.go", Old: "\tif err := c.encodeBlankBlock(ctx); err != nil {\n\t\treturn errors.Wrap(err, \"write end of data\")\n\t}\n", New: "\tif err := c.encodeBlankBlock(ctx); err != nil {\n\t\treturn errors.Wrap(err, \"write end of data\")\n\t}\n\tif err := c.encodeBlankBlock(ctx); err != nil {\n\t\treturn errors.Wrap(err, \"write end of data\")\n\t}\n", Rule: "C09.terminator", Construct: "after"},
 		{Name: "tail-rows-dropped", File: "query.go", Old: "\t\t\t\t\tf = nil\n\t\t\t\t\tcontinue\n", New: "\t\t\t\t\tbreak\n", Rule: "C09.tail", Construct: ""},
@@ -74,17 +78,21 @@ func init() {
 		{Name: "loop-does-not-retest-ctx", File: "query.go", Old: "\t\t\tif ctx.Err() != nil {\n\t\t\t\treturn ctx.Err()\n\t\t\t}\n\t\t\tcode, err := c.packet(ctx)", New: "\t\t\tcode, err := c.packet(ctx)", Rule: "C10.leak", Construct: "packet"},
 	}
 	mutants["C11"] = []Mutant{
+		{Name: "slab-recycled", File: "chpool/conn.go", Old: "cr.clients = make([]Client, 128)", New: "cr.clients = cr.clients[:cap(cr.clients)]", Rule: "C11.slab", Construct: ""},
 		{Name: "release-closed-client", File: "chpool/client.go", Old: "if client.IsClosed() || time.Since(", New: "if !client.IsClosed() || time.Since(", Rule: "C11.release", Construct: "Release"},
 		{Name: "idle-branch-releases", File: "chpool/pool.go", Old: "\t\t} else if res.IdleDuration() > p.options.MaxConnIdleTime {\n\t\t\tres.Destroy()", New: "\t\t} else if res.IdleDuration() > p.options.MaxConnIdleTime {\n\t\t\tres.ReleaseUnused()", Rule: "C11.health", Construct: ""},
 		{Name: "dial-in-acquire", File: "chpool/pool.go", Old: "\tres, err := p.pool.Acquire(ctx)\n\tif err != nil {\n\t\treturn nil, err\n\t}\n\n\treturn res.Value().getConn(p, res), nil", New: "\tres, err := p.pool.Acquire(ctx)\n\tif err != nil {\n\t\tif c, derr := ch.Dial(ctx, p.options.ClientOptions); derr == nil {\n\t\t\t_ = c.Close()\n\t\t}\n\t\treturn nil, err\n\t}\n\n\treturn res.Value().getConn(p, res), nil", Rule: "C11.factory", Construct: "Acquire"},
 		{Name: "handle-keeps-res", File: "chpool/client.go", Old: "\tres := c.res\n\tc.res = nil\n", New: "\tres := c.res\n", Rule: "C11.handle", Construct: "Release"},
 	}
 	mutants["C12"] = []Mutant{
+		{Name: "global-lazy-decoder", File: "compress/reader.go", Old: "\t\t\tr.zstd = zstdReader\n", New: "\t\t\tr.zstd = zstdReader\n\t\t\tmethodTable[None] = encodedNone\n", Rule: "C12.globals", Construct: ""},
+		{Name: "close-logs", File: "client.go", Old: "\tc.closed = true\n\tif err := c.conn.Close(); err != nil {", New: "\tc.closed = true\n\tc.lg.Debug(\"closing\")\n\tif err := c.conn.Close(); err != nil {", Rule: "C12.owner", Construct: "foreign/Close"},
 		{Name: "isclosed-without-lock", File: "client.go", Old: "func (c *Client) IsClosed() bool {\n\tc.mux.Lock()\n\tdefer c.mux.Unlock()\n", New: "func (c *Client) IsClosed() bool {\n", Rule: "C12.owner", Construct: "IsClosed/closed"},
 		{Name: "shared-query-written-in-receiver", File: "query.go", Old: "\t\tonResult := c.resultHandler(q)\n", New: "\t\tonResult := c.resultHandler(q)\n\t\tq.QueryID = \"\"\n", Rule: "C12.captured", Construct: "captured/q"},
 		{Name: "metrics-without-lock", File: "query_metrics.go", Old: "\tv.mux.Lock()\n\tdefer v.mux.Unlock()\n", New: "", Rule: "C12.ctxvalue", Construct: "sharedQueryMetrics"},
 	}
 	mutants["C13"] = []Mutant{
+		{Name: "dial-timeout-bounds-handshake", File: "client.go", Old: "\tconn, err := opt.Dialer.DialContext(ctx, \"tcp\", opt.Address)", New: "\tctx, cancelDial := context.WithTimeout(ctx, opt.DialTimeout)\n\tdefer cancelDial()\n\tconn, err := opt.Dialer.DialContext(ctx, \"tcp\", opt.Address)", Rule: "C13.ctx", Construct: "Dial"},
 		{Name: "downgrade-direction", File: "handshake.go", Old: "if c.protocolVersion > c.server.Revision {", New: "if c.protocolVersion < c.server.Revision {", Rule: "C13.min", Construct: "store-protocolVersion"},
 		{Name: "hello-decoded-with-server-revision", File: "client.go", Old: "\treturn v.DecodeAware(c.reader, c.protocolVersion)", New: "\treturn v.DecodeAware(c.reader, c.server.Revision)", Rule: "C13.version", Construct: "decode"},
 		{Name: "dial-leaks-conn", File: "client.go", Old: "\t\t// Connection was dialed here, so nobody else can close it.\n\t\t_ = conn.Close()\n", New: "", Rule: "C13.dialclose", Construct: "Dial"},
@@ -97,6 +105,7 @@ func init() {
 		{Name: "flush-error-skips-reset", File: "proto/writer.go", Old: "\tn, err = w.vec.WriteTo(w.conn)\n\tw.reset()", New: "\tn, err = w.vec.WriteTo(w.conn)\n\tif err != nil {\n\t\treturn n, err\n\t}\n\tw.reset()", Rule: "C14.flush", Construct: "Flush"},
 	}
 	mutants["C15"] = []Mutant{
+		{Name: "readraw-bypasses-selection", File: "proto/reader.go", Old: "\tif err := r.readFull(n); err != nil {\n\t\treturn nil, errors.Wrap(err, \"read full\")\n\t}\n", New: "\tr.b.Ensure(n)\n\tif _, err := io.ReadFull(r.raw, r.b.Buf); err != nil {\n\t\treturn nil, errors.Wrap(err, \"read full\")\n\t}\n", Rule: "C15.source", Construct: "ReadRaw"},
 		{Name: "safe-uint32-size", File: "proto/col_uint32_safe_gen.go", Old: "\tconst size = 32 / 8\n\tdata, err := r.ReadRaw(rows * size)", New: "\tconst size = 16 / 8\n\tdata, err := r.ReadRaw(rows * size)", Rule: "C15.width", Construct: "ColUInt32"},
 		{Name: "safe-big-endian", File: "proto/col_uint16_safe_gen.go", Old: "\t\t\tbinary.LittleEndian.Uint16(data[i:i+size]),", New: "\t\t\tbinary.BigEndian.Uint16(data[i:i+size]),", Rule: "C15.endian", Construct: "ColUInt16"},
 		{Name: "uint128-halves-swapped", File: "proto/int128.go", Old: "binary.LittleEndian.PutUint64(b[:64/8], v.Low)", New: "binary.LittleEndian.PutUint64(b[:64/8], v.High)", Rule: "C15.endian", Construct: "binPutUInt128"},
@@ -127,6 +136,7 @@ func init() {
 		{Name: "decimal64-boundary", File: "proto/col_auto.go", Old: "case prec >= 10 && prec < 19:", New: "case prec >= 10 && prec < 20:", Rule: "C19.decimal", Construct: ""},
 	}
 	mutants["C20"] = []Mutant{
+		{Name: "int128-from-uint64-signed", File: "proto/int128.go", Old: "func Int128FromUInt64(v uint64) Int128 {\n\treturn Int128(UInt128FromUInt64(v))", New: "func Int128FromUInt64(v uint64) Int128 {\n\treturn Int128FromInt(int(v))", Rule: "C20.widen", Construct: "Int128FromUInt64"},
 		{Name: "week-six-days", File: "proto/col_interval.go", Old: "int(i.Value)*7", New: "int(i.Value)*6", Rule: "C20.interval", Construct: "IntervalWeek"},
 		{Name: "hour-is-minute", File: "proto/col_interval.go", Old: "t.Add(time.Hour * time.Duration(i.Value))", New: "t.Add(time.Minute * time.Duration(i.Value))", Rule: "C20.interval", Construct: "IntervalHour"},
 		{Name: "toip-little-endian", File: "proto/ipv4.go", Old: "binary.BigEndian.PutUint32(buf[:], uint32(v))", New: "binary.LittleEndian.PutUint32(buf[:], uint32(v))", Rule: "C20.endian", Construct: "IPv4"},
